@@ -28,7 +28,7 @@ RULE = ('(quantifier grid) every sequence of <= 2 (quick) / <= 3 (thorough, seed
         'verdict and tags on FST(p), on a layout-mutated FST(L(p)) and on ast.parse(p); the own AST matches, a single-leaf perturbation '
         '(identifier, constant value or type, operator class, list length) does not; the verdict is identical before and after unrelated '
         'match / search calls and tag containers are not shared between results; list(search(p)) equals the nodes of walk(all=True) that '
-        'match(p) accepts, in order, also with nested=False, back, recurse and scope. Non-trivial = quantifier cases where the regex had to '
+        'match(p) accepts, in order, also with nested=False, back, recurse and scope, and for patterns that are instances of field-less leaf classes (contexts, operators, Pass ...) bare and inside combinators with ctx=False / True. Non-trivial = quantifier cases where the regex had to '
         'backtrack (greedy first attempt differs from the final match) or combinator patterns on non-leaf targets; distinct by case.')
 ASSUMPTIONS = [
     'regex translation assumes the documented semantics: greedy by default, .NG lazy, sub-sequence iterations do not mix their backtracking with the parent (atomic)',
@@ -115,6 +115,12 @@ def enumerate_cases(tier, shard, nshards, seed):
                     continue
 
                 yield {'src': src, 'nsel': [ni], 'wild': [] if comb % 2 else [ni * 7 + comb], 'comb': comb, 'pert': ni * 31 + comb, 'layout': [], 'sopt': (ni + comb) % 8, 'enumerated': True}
+
+    # search() == filtered walk for patterns which are INSTANCES of field-less leaf classes (expr_context, operators, Pass ...), bare and inside
+    # combinators, with ctx=False (a context instance matches any context) and ctx=True: the node-type pre-filter of search() must agree with match()
+    for j, src in enumerate(gen.SYN_PROGRAMS + LEAFINST_PROGRAMS):
+        if j % nshards == shard:
+            yield {'leafinst': True, 'src': src}
 
     if shard == 0:
         for bi in range(len(BACKREF_SEQS)):
@@ -646,8 +652,51 @@ def run_struct(case, ctx):
             ctx.mark_nontrivial((src, nsel, case['comb'] + k, tuple(case['wild'])), {'pattern_kind': pkind, 'target': ast.unparse(pnode)[:120], 'search_opts': kw} if nsel % 29 == 0 else None)
 
 
+LEAFINST_PROGRAMS = (
+    'a = b\ndel c, d[0]\ne.f += g\nfor h in i: pass\nwith j as k: pass\n[l, *m] = n',
+    'r = a + b - c * d | e\nr = not a and -b or ~c\nr = a < b == c is d not in e\nr += 1\nr -= 2\nwhile a:\n    break\nelse:\n    continue',
+)
+
+_LEAF_CLASSES = (ast.Load, ast.Store, ast.Del, ast.Add, ast.Sub, ast.BitOr, ast.And, ast.Or, ast.Not, ast.USub, ast.Eq, ast.Is, ast.NotIn, ast.Pass, ast.Break, ast.Continue)
+
+
+def run_leafinst(case, ctx):
+    from fst.match import M, MAND, MNOT, MOR
+
+    src = case['src']
+
+    try:
+        root = FST(src, 'exec')
+    except Exception as exc:
+        raise Skip(f'build_failed:{type(exc).__name__}') from None
+
+    for cls in _LEAF_CLASSES:
+        for wi, wrap in enumerate((lambda p: p, lambda p: M(t=p), lambda p: MOR(p, ast.Ellipsis), lambda p: MAND(p, MNOT(ast.Name)), lambda p: MOR(ast.Lambda, M(u=p)))):
+            for kw in ({}, {'ctx': True}, {'ctx': False, 'back': True}):
+                pat = wrap(cls())
+                desc = f'pattern #{wi} around {cls.__name__}() instance, options {kw} on {src[:80]!r}'
+                wkw = {k: v for k, v in kw.items() if k != 'ctx'}
+                mkw = {k: v for k, v in kw.items() if k == 'ctx'}
+
+                try:
+                    got = [id(mm.matched.a) for mm in root.search(pat, **kw)]
+                    want = [id(g.a) for g in root.walk(True, **wkw) if g.match(pat, **mkw) is not None]
+                except Exception as exc:
+                    raise Violation('C17.search_raise', f'{desc}: search / walk raised {exc!r}', f'search_raise:leafinst:{cls.__name__}') from None
+
+                ctx.count('searches_leafinst')
+
+                if got != want:
+                    raise Violation('C17.search', f'{desc}: search yields {len(got)} nodes, walk filtered by match {len(want)}', f'search:leafinst:{cls.__name__}:{wi}:{"+".join(sorted(kw)) or "default"}')
+
+                if want:
+                    ctx.mark_nontrivial((src, cls.__name__, wi, tuple(sorted(kw))), {'pattern_kind': f'leafinst#{wi}', 'target': cls.__name__, 'search_opts': kw, 'hits': len(want)} if wi == 0 and not kw else None)
+
+
 def execute(case, ctx):
-    if 'grid' in case or 'backref' in case:
+    if 'leafinst' in case:
+        run_leafinst(case, ctx)
+    elif 'grid' in case or 'backref' in case:
         run_grid(case, ctx)
     else:
         run_struct(case, ctx)
